@@ -28,6 +28,7 @@ from typing import Any
 
 WATCHDOG_S = 120.0  # harness stall limit (→ exit 2, never a verdict)
 GRACE_S = 0.06  # how long to look for a gate arrival that must NOT happen (only bounds detection power)
+POST_ABANDON_GRACE_S = 0.7
 MAX_QUEUED = 3
 
 
@@ -52,6 +53,7 @@ class Gates:
         self.max_served = 0
         self.max_queued = 0
         self.trace: list[str] = []  # human-readable schedule trace
+        self.abandoned: set[int] = set()  # clients that hung up while still queued for a slot
 
     # ------------------------------------------------------------------ server side (connection threads)
 
@@ -123,6 +125,17 @@ class Gates:
             self.state[ci] = "done"
             self.cv.notify_all()
 
+    def is_queued(self, ci: int) -> bool:
+        with self.cv:
+            return self.state[ci] == "queued"
+
+    def client_abandoned(self, ci: int) -> None:
+        with self.cv:
+            self.abandoned.add(ci)
+            self.trace.append(f"abandon{ci}")
+            self.state[ci] = "done"
+            self.cv.notify_all()
+
     # ------------------------------------------------------------------ controller
 
     def _wait(self, pred: Callable[[], bool], what: str) -> None:
@@ -138,7 +151,9 @@ class Gates:
     def _look(self, watched: list[int]) -> None:
         """Bounded look for an arrival that must not happen (a still-queued client reaching a gate).  Under correct
         code nothing happens, so the schedule does not depend on the length of the look."""
-        end = time.monotonic() + GRACE_S
+        # after a queued client hung up, the server needs a moment to notice; what it then does with that connection's
+        # place in the queue shows only in whether a still-queued client gets in — look longer
+        end = time.monotonic() + (POST_ABANDON_GRACE_S if self.abandoned else GRACE_S)
         while all(self.state[q] == "queued" for q in watched) and time.monotonic() < end:
             self.cv.wait(timeout=max(0.0, end - time.monotonic()))
 
